@@ -2,7 +2,7 @@
 import numpy as np
 from hypothesis import strategies as st
 
-from vf.core import Prop, Result
+from vf.core import Prop, Result, lib_exception_sig
 from vf import gen, chain, evo
 from vf.props.c03 import check_meta, arith_instr
 from vf.props.c08 import build_ops
@@ -199,11 +199,43 @@ class Interp06(Interp04):
         Hv = H @ chain.tensors_dense(x).astype(complex)
         if np.linalg.norm(Hv) <= 1e-8:
             return
+        if s.get("fam") == "pc":
+            # propagate-and-compress forms H^k psi explicitly; a power that vanishes exactly (nilpotent action on this state) is a
+            # zero MPS, which the library refuses by assertion (DESIGN §3.4): not generated
+            hn = max(np.linalg.norm(H, 2), 1e-300)
+            v, v0 = Hv, np.linalg.norm(chain.tensors_dense(x))
+            for k in range(2, 8):
+                v = H @ v
+                if np.linalg.norm(v) <= 1e-9 * hn ** k * v0:
+                    self.r.classes.append("evolve.pc.vanishing_power_rejected")
+                    return
         x.evolve_config = evo.make_evolve_config(s, guess_dt=-0.1j if ins["imag"] else None, tight=False)
         x.compress_config = CompressConfig(CompressCriteria.fixed, max_bonddim=max(ins["M"], max(x.bond_dims)) if s["kind"] in
                                            ("tdvp_ps", "tdvp_vmf", "tdvp_mu_vmf", "tdvp_mu_cmf") else ins["M"])
         dt = -1j * ins["dt"] if ins["imag"] else ins["dt"]
-        ok, y = self.guard(f"evolve.{s['kind']}", x.evolve, mpo, dt, ins["normalize"])
+        if s.get("fam") == "pc" and ins["M"] < max(x.bond_dims):
+            # truncating propagate-and-compress: the truncated intermediate state of a Runge-Kutta stage can be annihilated by H
+            # exactly (only Schmidt vectors outside the support of H survive the cut); the library then refuses the zero MPS by its
+            # zero-tensor assertion. Not predictable from the dense model (depends on the truncation): counted, not asserted.
+            try:
+                ok, y = True, x.evolve(mpo, dt, ins["normalize"])
+            except AssertionError as e:
+                sg, in_lib = lib_exception_sig(e)
+                if not in_lib:
+                    raise
+                if sg.endswith("_push_cano"):
+                    self.r.classes.append("evolve.pc.truncated_stage_vanished")
+                    return
+                self.r.fail(f"evolve.{s['kind']}.{sg}", f"{e!r} trace={self.trace[-6:]}")
+                return
+            except Exception as e:  # noqa
+                sg, in_lib = lib_exception_sig(e)
+                if not in_lib:
+                    raise
+                self.r.fail(f"evolve.{s['kind']}.{sg}", f"{e!r} trace={self.trace[-6:]}")
+                return
+        else:
+            ok, y = self.guard(f"evolve.{s['kind']}", x.evolve, mpo, dt, ins["normalize"])
         if ok:
             self.r.classes.append(f"evolve.{s['kind']}.{'imag' if ins['imag'] else 'real'}")
             self._post(y, reg.q, "evolution", f"evolve.{s['kind']}.{'imag' if ins['imag'] else 'real'}")
